@@ -133,6 +133,71 @@ def coreSequential (prog : Prog) (pre : List CAct) (acts : List CAct) (order : L
   pure (s!"R[{String.intercalate "," results}] E\{{showE union}} P\{{showE probe}} L\{{Driver.Rt.showEvs log}} " ++
     statsCore k)
 
+/-! corerace, weaker reference: every call split into its two phases — (1) the update (`ev`) or the resolve (`res`), which is
+    atomic in the code (model write lock / channel send), and (2) `Core::process` — interleaved in any order that keeps each
+    call's own phases in order. An outcome explained by such a schedule but by no order of WHOLE calls shows that a call is not
+    atomic: a second caller's input was accepted between another call's two phases. -/
+def merges : List (List (Nat × Bool)) → List (List (Nat × Bool))
+  | ls =>
+    let ls := ls.filter (!·.isEmpty)
+    if ls.isEmpty then [[]] else
+    -- pick the head of any of the lists
+    go ls ls.length (ls.foldl (fun n l => n + l.length) 0)
+where
+  go (ls : List (List (Nat × Bool))) (n : Nat) : Nat → List (List (Nat × Bool))
+  | 0 => [[]]
+  | fuel + 1 =>
+    let ls := ls.filter (!·.isEmpty)
+    if ls.isEmpty then [[]] else
+    (List.range ls.length).flatMap fun i =>
+      match ls[i]? with
+      | some (x :: xs) => (go (ls.set i xs) n fuel).map (x :: ·)
+      | _ => []
+
+open M.Rt M.Hosts in
+def coreTwoPhase (prog : Prog) (pre : List CAct) (acts : List CAct) (sched : List (Nat × Bool)) : Option String := do
+  let (_, h) ← runCore prog true (pre.map CAct.toAction)
+  -- state: host, per call (result, effects, whether phase 2 is due)
+  let rec go (h : CoreHost) (sched : List (Nat × Bool)) (acc : List (Nat × String × List EffView × Bool)) :
+      Option (CoreHost × List (Nat × String × List EffView × Bool)) :=
+    match sched with
+    | [] => some (h, acc)
+    | (i, second) :: rest =>
+      match acts[i]? with
+      | none => none
+      | some a =>
+        if !second then
+          match a with
+          | .ev t v => go { h with k := update ⟨t, v⟩ h.k } rest ((i, "ok", [], true) :: acc)
+          | .view => go h rest ((i, "-", [], false) :: acc)
+          | .res kk v =>
+            match shellResolve h.reqs kk v h.k.w with
+            | none => go h rest ((i, "noreq", [], false) :: acc)
+            | some (reqs, res, w) =>
+              if res == .gone then go h rest ((i, "noreq", [], false) :: acc) else
+              let h := { h with reqs := reqs, k := { h.k with w := w } }
+              go h rest ((i, showRes res, [], res == .ok) :: acc)
+        else
+          match acc.find? (·.1 == i) with
+          | some (_, r, _, true) =>
+            match process h.k with
+            | none => none
+            | some (effs, k) =>
+              go { h with k := k } rest ((i, r, effs.map (viewOf ·), false) :: acc.filter (·.1 != i))
+          | _ => go h rest acc
+  let (h, res) ← go h sched []
+  let (peffs, k) ← processEvent ⟨probeTag, 0⟩ h.k
+  let results := (List.range acts.length).map fun i => ((res.find? (·.1 == i)).map (·.2.1)).getD "?"
+  let union := sortBy keyLe (res.flatMap (·.2.2.1))
+  let probe := sortBy keyLe (peffs.map (viewOf ·))
+  let log := sortBy Driver.Rt.evLe (k.log.filter (·.tag != probeTag))
+  let showE (es : List EffView) := String.intercalate "," (es.map fun e => s!"{e.n}:{e.v}:{e.kind}")
+  pure (s!"R[{String.intercalate "," results}] E\{{showE union}} P\{{showE probe}} L\{{Driver.Rt.showEvs log}} " ++
+    statsCore k)
+
+def twoPhaseSchedules (n : Nat) : List (List (Nat × Bool)) :=
+  merges ((List.range n).map fun i => [(i, false), (i, true)])
+
 /-! bridgerace: several threads calling into one Bridge; which ids are live is decided before the race -/
 
 open M.Rt M.Hosts M.Bridge in
@@ -228,7 +293,10 @@ def oracle (input : String) : String :=
       match Driver.Rt.parseProg prog, pre.mapM parseCAct, acts.mapM parseCAct with
       | some prog, some pre, some acts =>
         let orders := permutations (List.range acts.length)
-        if orders.any (fun o => coreSequential prog pre acts o == some impl) then "ok" else "reject not-linearizable"
+        if orders.any (fun o => coreSequential prog pre acts o == some impl) then "ok"
+        else if (twoPhaseSchedules acts.length).any (fun sch => coreTwoPhase prog pre acts sch == some impl) then
+          "reject call-not-atomic-input-accepted-between-phases"
+        else "reject not-linearizable"
       | _, _, _ => "bad-case"
     | some (.list [.atom "race", c, .list pre, a1, a2, _]) =>
       if impl.endsWith "STUCK" then "reject schedule-stuck" else
